@@ -142,4 +142,24 @@ CHECKS['C06'] = {
     'assumptions': ['liveness is bounded: quiescence of the simulation is the end of time', 'white-box witnesses: m_incoming_queue, m_outgoing_packets'],
 }
 
+CHECKS['C07'] = {
+    'jobs': {'quick': [J('c07_pairing.cpp', ['NCLI=2'], wall=280, markers=(1, 2))],
+             'thorough': [J('c07_pairing.cpp', ['NCLI=2'], wall=900, markers=(1, 2)), J('c07_pairing.cpp', ['NCLI=2', 'AF6=1'], wall=900, markers=(1, 2))]},
+    'bounds': {'quick': '2 clients on 2 nodes connect to one acceptor on a two-address server node (listening on either address); each accept uses a symbolic overload (3); accepts posted before the SYNs or after they queued up; '
+                        'NAT placement none / one client / both / both behind one external address / client and server; one extra connect to the other address or another port (refused); one distinct byte each way per pair; '
+                        'finally close() or close(ec) on the acceptor, a late connect (refused) and a re-bind of the endpoint; IPv4',
+               'thorough': 'same plus the IPv6 instance'},
+    'outside': ['more than 2 queued connects', 'several acceptors', 'routes without a queue hop'],
+    'assumptions': ['every route between two nodes contains at least one sim::queue'],
+}
+CHECKS['C13'] = {
+    'jobs': {'quick': [J('c07_pairing.cpp', ['NCLI=2', 'UDPPART=1'], wall=120, markers=(1, 2)), J('c07_pairing.cpp', ['NCLI=2'], wall=280, markers=(1, 2))],
+             'thorough': [J('c07_pairing.cpp', ['NCLI=2', 'UDPPART=1'], wall=120, markers=(1, 2)), J('c07_pairing.cpp', ['NCLI=2', 'UDPPART=1', 'AF6=1'], wall=120, markers=(1, 2)),
+                          J('c07_pairing.cpp', ['NCLI=2'], wall=900, markers=(1, 2)), J('c07_pairing.cpp', ['NCLI=2', 'AF6=1'], wall=900, markers=(1, 2))]},
+    'bounds': {'quick': 'NAT placement none / client 0 / both clients / both clients behind one external address / client 0 and the server; UDP: 3 datagrams (symbolic payload) from two senders, receiver-side sender endpoint, payload, order and arrival time; '
+                        'TCP: 2 connections, remote_endpoint()/local_endpoint() on all four sockets, accept peer endpoint, one byte each way', 'thorough': 'plus IPv6'},
+    'outside': ['more than 2 nodes behind one NAT', 'NAT in incoming routes (the library documents NAT hops on outgoing routes only)'],
+    'assumptions': [],
+}
+
 NOT_APPLICABLE = {}
